@@ -341,7 +341,7 @@ SCReport(b, obj) ==
        locks     |-> TRUE,
        counts    |-> /\ h.npts = Val1(obj.grp, sPOINT, sUSED)                                      \* header counts agree with the parameters
                      /\ HdrAnalogs(h) * h.perframe = h.meas
-                     /\ (h.perframe >= 1 => HdrAnalogs(h) = Val1(obj.grp, sANALOG, sUSED))
+                     /\ (h.perframe >= 1 /\ Has1(obj.grp, sANALOG, sUSED, TINT) => HdrAnalogs(h) = Val1(obj.grp, sANALOG, sUSED))
                      /\ RateKey(h.rate) = RateKey(Val1(obj.grp, sPOINT, sRATE)),
        frames    |-> (nfr > 0 => h.last - h.first + 1 = nfr) /\ Val1(obj.grp, sPOINT, sFRAMES) = nfr,
        datasize  |-> Len(b) = dataPos + nfr * (16 * h.npts + 4 * h.meas),                          \* the data section has exactly the announced size
